@@ -1537,10 +1537,16 @@ impl<'a, 'd> Gen<'a, 'd> {
             self.user_fns.retain(|f| !crf.contains(f));
         }
         self.closure_depth += 1;
-        let body = if fuel > 1 && self.d.chance(100) {
-            self.block(r, fuel - 1)
-        } else {
-            self.expr(r, fuel - 1)
+        // a body that is nothing but a method call: the receiver (a captured trait object, a value of a
+        // bounded type parameter, a captured value) may then be used by the closure in no other way
+        let only_call = if self.cfg.traits && self.d.chance(60) { self.method_calls(r, fuel.max(2) - 1) } else { None };
+        let body = match only_call {
+            Some(e) => {
+                self.label("closure:body-is-method-call");
+                e
+            }
+            None if fuel > 1 && self.d.chance(100) => self.block(r, fuel - 1),
+            None => self.expr(r, fuel - 1),
         };
         self.closure_depth -= 1;
         self.callable = saved_callable;
